@@ -84,6 +84,17 @@ pub fn solve_curve_for_t_along_axis<C: BezierCurve>(curve: &C, point: &C::Point,
         }
     }
     
+    // The basis solver only reports 0.0 or 1.0 for an exact match, so a point that is a rounding error away from an end of the curve has no solution yet
+    const ROUNDING_ERROR: f64 = 1e-9;
+
+    if p1.is_near_to(point, ROUNDING_ERROR) {
+        return Some(0.0);
+    }
+
+    if p4.is_near_to(point, ROUNDING_ERROR) {
+        return Some(1.0);
+    }
+
     // No solution: result is None
     None
 }
